@@ -109,6 +109,9 @@ ArithFails(c) ==
        <<"host-circuit-ill-formed-after-call", wf /\ (~existOK \/ good)>>,
        <<"identity:" \o c.name, ~good \/ \A j \in DOMAIN c.checks : CheckOK(ev.v, rows, c.checks[j])>>,
        <<"host-input-set-changed", SeqSet(post.i) = SeqSet(pre.i) /\ Len(post.i) = Len(pre.i)>>,
+       \* the summation and multiplication generators never reorder the inputs of their host (the plus-one gadget of C09
+       \* does, on purpose): positional evaluation of what existed before must stay what it was
+       <<"host-input-order-changed", c.prop \notin {"C07", "C08"} \/ c.outmode = "set" \/ post.i = pre.i>>,
        <<"pre-existing-gate-removed", DOMAIN GP \subseteq DOMAIN G>>,
        <<"pre-existing-gate-function-changed",
            ~good \/ ~evpre.ok \/ \A l \in DOMAIN GP : ev.v[l] = evpre.v[l]>>,
